@@ -560,6 +560,169 @@ Proof.
   - cbn [buf mq halted stale continues negb rx_of_stop]. rewrite rx_of_app. cbn [rx_of]. auto using qeq_refl.
 Qed.
 
+(* ------------------------------------------------------------------------------------------ *)
+(* ledger of what goes to the wire: every message of the queue is sent at most once, in queue order *)
+Lemma send_all_sent q : forallb (fun e => negb (unsent e)) (fst (send q)) = true.
+Proof.
+  unfold send; cbn [fst]. apply forallb_forall. intros e H. apply in_map_iff in H. destruct H as (x & <- & _).
+  destruct (unsent x) eqn:U; [|rewrite U; reflexivity]. unfold unsent, set_sent in *. cbn. rewrite andb_false_r. reflexivity.
+Qed.
+Definition core (e : entry) : Z * Z * bool := (ect e, epid e, esent e).
+Definition slog (q : list entry) : list out := map sent_out (filter esent q).
+Definition is_sent (o : out) : bool := match o with Sent _ _ => true | _ => false end.
+Definition sents (o : list out) : list out := filter is_sent o.
+Definition all_sent (q : list entry) : Prop := forallb (fun e => negb (unsent e)) q = true.
+Definition rel1 (x y : entry) : Prop := core x = core y /\ (eacked x = true -> eacked y = true).
+(* drain-level: old entries keep type, id and "sent" bit; new ones are appended unsent *)
+Definition grows (q q' : list entry) : Prop :=
+  exists a nw, q' = a ++ nw /\ Forall2 rel1 q a /\ Forall (fun e => esent e = false) nw.
+(* run-level *)
+Definition ledger (q q' : list entry) (o : list out) : Prop :=
+  all_sent q' /\ exists a nw, q' = a ++ nw /\ map core a = map core q /\ slog nw = sents o.
+
+Lemma rel1_refl q : Forall2 rel1 q q.
+Proof. induction q; constructor; auto. split; auto. Qed.
+Lemma grows_refl q : grows q q.
+Proof. exists q, []. rewrite app_nil_r. auto using rel1_refl. Qed.
+Lemma rel1_core q a : Forall2 rel1 q a -> map core a = map core q.
+Proof. induction 1 as [|x y q a [C _] _ IH]; [reflexivity|]. cbn [map]. congruence. Qed.
+Lemma slog_core a b : map core a = map core b -> slog a = slog b.
+Proof.
+  revert b. induction a as [|x a IH]; intros [|y b] H; try discriminate; [reflexivity|]. cbn [map] in H. apply cons_inj in H.
+  destruct H as [H1 H2]. unfold slog in *. cbn [filter]. unfold core in H1. inversion H1 as [[A B C]]. rewrite C.
+  destruct (esent y); cbn [map]; [|apply IH; exact H2]. f_equal; [unfold sent_out; rewrite A, B; reflexivity|apply IH; exact H2].
+Qed.
+Lemma slog_app a b : slog (a ++ b) = slog a ++ slog b.
+Proof. unfold slog. rewrite filter_app, map_app. reflexivity. Qed.
+Lemma sents_app a b : sents (a ++ b) = sents a ++ sents b.
+Proof. unfold sents. apply filter_app. Qed.
+
+Lemma ack_first_rel p q q' : ack_first p q = Some q' -> Forall2 rel1 q q'.
+Proof.
+  revert q'. induction q as [|e q IH]; intros q' H; cbn [ack_first] in H; [discriminate|].
+  destruct (p e).
+  - inversion H; subst. constructor; [split; [reflexivity|auto]|apply rel1_refl].
+  - destruct (ack_first p q) as [r|]; [|discriminate]. inversion H; subst. constructor; [split; auto|apply IH; reflexivity].
+Qed.
+Lemma grows_trans q1 q2 q3 : grows q1 q2 -> grows q2 q3 -> grows q1 q3.
+Proof.
+  intros (a1 & n1 & -> & R1 & F1) (a2 & n2 & -> & R2 & F2).
+  apply Forall2_app_inv_l in R2. destruct R2 as (x & y & Rx & Ry & ->).
+  exists x, (y ++ n2). rewrite app_assoc. split; [reflexivity|]. split.
+  - clear - R1 Rx. revert x Rx. induction R1 as [|u v q1 a1 [C A] _ IH]; intros x Rx.
+    + inversion Rx; subst. constructor.
+    + inversion Rx as [|? w ? x' HR Rx']; subst. destruct HR as [C' A']. constructor; [split; [congruence|auto]|apply IH; assumption].
+  - apply Forall_app. split; [|exact F2]. clear - F1 Ry. revert y Ry. induction F1 as [|u n1 Hu _ IH]; intros y Ry.
+    + inversion Ry; subst. constructor.
+    + inversion Ry as [|? w ? y' HR Ry']; subst. destruct HR as [C' _]. constructor; [|apply IH; assumption].
+      unfold core in C'. inversion C'. congruence.
+Qed.
+Lemma grows_append q q1 e : Forall2 rel1 q q1 -> esent e = false -> grows q (q1 ++ [e]).
+Proof. intros R E. exists q1, [e]. auto. Qed.
+
+Lemma handle_grows r q : match handle r q with (q', _, _, t) => t = false -> grows q q' end.
+Proof.
+  destruct r as [code|dup qos retain toff tlen poff plen pid|ct pid|pid code0|pid|]; cbn [handle].
+  - destruct (ack_first _ q) as [q'|] eqn:A; [|intros; apply grows_refl].
+    pose proof (ack_first_rel _ _ _ A) as R.
+    destruct (code =? CONNACK_ACCEPTED); [|destruct (code =? CONNACK_ID_REJECTED)]; intros _; exists q', []; rewrite app_nil_r; auto.
+  - destruct (qos =? 1).
+    { destruct (try_pack CT_PUBACK pid 4 q) as [[q'|] t] eqn:T; intros ->; [|apply grows_refl].
+      apply try_pack_loose in T. destruct T as [T _]. inversion T; subst. apply grows_append; [apply rel1_refl|reflexivity]. }
+    destruct (qos =? 2); [|intros; apply grows_refl].
+    destruct (existsb _ q); [intros; apply grows_refl|].
+    destruct (try_pack CT_PUBREC pid 4 q) as [[q'|] t] eqn:T; intros ->; [|apply grows_refl].
+    apply try_pack_loose in T. destruct T as [T _]. inversion T; subst. apply grows_append; [apply rel1_refl|reflexivity].
+  - destruct (ct =? CT_PUBACK).
+    { destruct (ack_first _ q) as [q'|] eqn:A; intros _; [|apply grows_refl]. exists q', []. rewrite app_nil_r. eauto using ack_first_rel. }
+    destruct (ct =? CT_PUBREC).
+    { destruct (existsb _ q); [intros; apply grows_refl|].
+      destruct (ack_first _ q) as [q'|] eqn:A; [|intros; apply grows_refl]. pose proof (ack_first_rel _ _ _ A) as R.
+      destruct (try_pack CT_PUBREL pid 4 q') as [[q''|] t] eqn:T; intros ->.
+      - apply try_pack_loose in T. destruct T as [T _]. inversion T; subst. apply grows_append; [exact R|reflexivity].
+      - exists q', []. rewrite app_nil_r. auto. }
+    destruct (ct =? CT_PUBREL).
+    { destruct (ack_first _ q) as [q'|] eqn:A; [|intros; apply grows_refl]. pose proof (ack_first_rel _ _ _ A) as R.
+      destruct (try_pack CT_PUBCOMP pid 4 q') as [[q''|] t] eqn:T; intros ->.
+      - apply try_pack_loose in T. destruct T as [T _]. inversion T; subst. apply grows_append; [exact R|reflexivity].
+      - exists q', []. rewrite app_nil_r. auto. }
+    destruct (ack_first _ q) as [q'|] eqn:A; intros _; [|apply grows_refl]. exists q', []. rewrite app_nil_r. eauto using ack_first_rel.
+  - destruct (ack_first _ q) as [q'|] eqn:A; [|intros; apply grows_refl]. pose proof (ack_first_rel _ _ _ A) as R.
+    destruct (code0 =? SUBACK_FAILURE); intros _; exists q', []; rewrite app_nil_r; auto.
+  - destruct (ack_first _ q) as [q'|] eqn:A; intros _; [|apply grows_refl]. exists q', []. rewrite app_nil_r. eauto using ack_first_rel.
+  - destruct (ack_first _ q) as [q'|] eqn:A; intros _; [|apply grows_refl]. exists q', []. rewrite app_nil_r. eauto using ack_first_rel.
+Qed.
+
+Lemma drain_grows f : forall q b, let d := drain f FIXED q b in d_tight d = false -> grows q (d_q d) /\ sents (d_out d) = [].
+Proof.
+  induction f as [|k IH]; intros q b; cbv zeta; [cbn; auto using grows_refl|]. rewrite drain_S.
+  destruct (unpack FIXED b) as [|e|r c]; [cbn; auto using grows_refl|cbn; auto using grows_refl|].
+  pose proof (handle_grows r q) as HG. destruct (handle r q) as [[[q' dl] oe] t]. cbv zeta.
+  assert (MS : sents (if dl then msg_of b r else []) = []) by (destruct dl; [destruct r; reflexivity|reflexivity]).
+  destruct (len b <? c); [cbn [d_tight d_q d_out]; intros ->; auto|].
+  destruct oe; [cbn [d_tight d_q d_out]; intros ->; auto|].
+  cbn [d_tight d_q d_out]. intros T. apply orb_false_elim in T. destruct T as [-> T2].
+  destruct (IH q' (drop c b) T2) as [G S]. split; [eapply grows_trans; eauto|]. rewrite sents_app, MS, S. reflexivity.
+Qed.
+
+Lemma all_sent_rel q a : all_sent q -> Forall2 rel1 q a -> all_sent a.
+Proof.
+  unfold all_sent. induction 2 as [|x y q a [C A] _ IH]; [reflexivity|]. cbn [forallb] in *. apply andb_true_iff in H. destruct H as [H1 H2].
+  rewrite (IH H2), andb_true_r. unfold core in C. inversion C as [[E1 E2 E]]. unfold unsent in *. rewrite <- E.
+  destruct (eacked x) eqn:X; [rewrite (A eq_refl); reflexivity|]. cbn [negb andb] in H1.
+  destruct (esent x); [rewrite andb_false_r; reflexivity|discriminate].
+Qed.
+Lemma send_clean a : all_sent a -> fst (send a) = a /\ filter unsent a = [].
+Proof.
+  unfold all_sent, send; cbn [fst]. induction a as [|e a IH]; intros H; [auto|]. cbn [forallb] in H. apply andb_true_iff in H.
+  destruct H as [H1 H2]. destruct (IH H2) as [I1 I2]. apply negb_true_iff in H1. cbn [map filter]. rewrite H1, I1, I2. auto.
+Qed.
+Lemma send_new nw : Forall (fun e => esent e = false) nw ->
+  slog (fst (send nw)) = map sent_out (filter unsent nw).
+Proof.
+  unfold send, slog; cbn [fst]. induction 1 as [|e nw E _ IH]; [reflexivity|]. cbn [map filter].
+  destruct (unsent e) eqn:U.
+  - cbn [set_sent esent filter map]. rewrite IH. f_equal.
+  - rewrite E, IH. reflexivity.
+Qed.
+
+Lemma sents_sent_out l : sents (map sent_out l) = map sent_out l.
+Proof.
+  induction l as [|e l IH]; [reflexivity|]. cbn [map]. unfold sents in *. cbn [filter].
+  assert (S : is_sent (sent_out e) = true) by (unfold sent_out; destruct (_ && _); reflexivity).
+  rewrite S, IH. reflexivity.
+Qed.
+
+Lemma sync_ledger s : all_sent (mq s) ->
+  d_tight (drain (S (length (buf s))) FIXED (mq s) (buf s)) = false ->
+  let '(s', o) := sync FIXED s in halted s' = false -> ledger (mq s) (mq s') o.
+Proof.
+  intros AS T. destruct (drain_grows (S (length (buf s))) (mq s) (buf s) T) as [(a & nw & E & R & F) SO]. unfold sync.
+  set (d := drain (S (length (buf s))) FIXED (mq s) (buf s)) in *.
+  destruct (d_stop d); [|cbn [halted]; discriminate|cbn [halted]; discriminate].
+  pose proof (send_all_sent (d_q d)) as SA. destruct (send (d_q d)) as [q' so] eqn:SE. cbn [fst] in SA. cbn [mq]. intros _.
+  split; [exact SA|]. unfold send in SE. inversion SE as [[Q O]]. rewrite E, map_app, filter_app, map_app.
+  pose proof (all_sent_rel _ _ AS R) as AA. destruct (send_clean a AA) as [S1 S2]. unfold send in S1; cbn [fst] in S1. rewrite S1, S2.
+  exists a, (map (fun e => if unsent e then set_sent e else e) nw). split; [reflexivity|]. split; [apply rel1_core; exact R|].
+  rewrite sents_app, SO. cbn [app]. pose proof (send_new nw F) as SN. unfold send in SN; cbn [fst] in SN. rewrite SN.
+  cbn [map app]. symmetry. apply sents_sent_out.
+Qed.
+
+Lemma ledger_trans q1 q2 q3 o1 o2 : ledger q1 q2 o1 -> ledger q2 q3 o2 -> ledger q1 q3 (o1 ++ o2).
+Proof.
+  intros (_ & a1 & n1 & -> & C1 & L1) (A3 & a2 & n2 & -> & C2 & L2). split; [exact A3|].
+  rewrite map_app in C2.
+  assert (SP : exists x y, a2 = x ++ y /\ map core x = map core a1 /\ map core y = map core n1).
+  { clear - C2. revert a2 C2. induction a1 as [|u a1 IH]; intros a2 C2.
+    - exists [], a2. auto.
+    - destruct a2 as [|v a2]; [discriminate|]. cbn [map app] in C2. apply cons_inj in C2. destruct C2 as [H1 H2].
+      destruct (IH a2 H2) as (x & y & -> & X & Y). exists (v :: x), y. cbn [map app]. repeat split; [congruence|exact Y]. }
+  destruct SP as (x & y & -> & X & Y). exists x, (y ++ n2). rewrite app_assoc. split; [reflexivity|]. split; [congruence|].
+  rewrite slog_app, sents_app, (slog_core y n1 Y), L1, L2. reflexivity.
+Qed.
+Lemma ledger_nil q : all_sent q -> ledger q q [].
+Proof. intros A. split; [exact A|]. exists q, []. rewrite app_nil_r. auto. Qed.
+
 Lemma orb_false_l' a b : a || b = false -> a = false /\ b = false.
 Proof. destruct a, b; auto. Qed.
 
@@ -570,7 +733,8 @@ Lemma feed_refines fuel : forall s chunk q0,
   let '(s', o) := feed fuel FIXED s chunk in
   rx_of o = rx_of (d_out d) ++ rx_of_stop (d_stop d) /\ qeq (mq s') (d_q d) /\
   halted s' = negb (continues (d_stop d)) /\ bytes_ok (buf s') /\
-  (continues (d_stop d) = true -> buf s' = d_rest d /\ len (buf s') < RECVBUF).
+  (continues (d_stop d) = true -> buf s' = d_rest d /\ len (buf s') < RECVBUF) /\
+  (all_sent (mq s) -> halted s' = false -> ledger (mq s) (mq s') o).
 Proof.
   induction fuel as [|k IH]; intros s chunk q0 OKb OKc LB Q LF; [lia|]. cbv zeta. intros TI. cbn [feed].
   set (n := if len chunk <? RECVBUF - len (buf s) then len chunk else RECVBUF - len (buf s)).
@@ -583,6 +747,7 @@ Proof.
   assert (OKr : bytes_ok rest) by (apply bytes_ok_drop; assumption).
   assert (OKbp : bytes_ok (buf s ++ piece)) by (apply bytes_ok_app; auto).
   pose proof (sync_spec (put s piece)) as SS. cbn [put buf mq] in SS. specialize (SS OKbp). cbv zeta in SS.
+  pose proof (sync_ledger (put s piece)) as SL. cbn [put buf mq] in SL.
   destruct (sync FIXED (put s piece)) as [s1 o1].
   destruct SS as (S1 & S2 & S3 & S4 & _).
   (* the same loop on the abstract queue q0 *)
@@ -610,8 +775,10 @@ Proof.
       specialize (IH s1 rest (d_q d1') ltac:(rewrite S2, R1; exact DR1) OKr ltac:(rewrite S2, R1; exact DR5)
                      (qeq_trans _ _ _ S3 Q1) LK). cbv zeta in IH.
       rewrite S2, R1 in IH. specialize (IH TI2).
-      destruct (feed k FIXED s1 rest) as [s2 o2]. destruct IH as (I1 & I2 & I3 & I4 & I5).
-      rewrite rx_of_app, S1, I1, O1, ST1, W, C, D, A, B. cbn [rx_of_stop]. rewrite app_nil_r, app_assoc. auto.
+      destruct (feed k FIXED s1 rest) as [s2 o2]. destruct IH as (I1 & I2 & I3 & I4 & I5 & I6).
+      rewrite rx_of_app, S1, I1, O1, ST1, W, C, D, A, B. cbn [rx_of_stop]. rewrite app_nil_r, app_assoc.
+      split; [reflexivity|]. split; [exact I2|]. split; [exact I3|]. split; [exact I4|]. split; [exact I5|].
+      intros AS HH. pose proof (SL AS TI1 H1) as L1. apply (ledger_trans _ _ _ _ _ L1). apply I6; [apply L1|exact HH].
     + (* nothing left: the whole chunk was the piece *)
       apply Z.ltb_ge in LR. assert (RN : rest = []).
       { destruct rest; [reflexivity|]. rewrite len_cons in LR. pose proof (len_nonneg rest). lia. }
@@ -619,12 +786,12 @@ Proof.
       assert (DD : d = d1').
       { unfold d, d1'. rewrite PC. reflexivity. }
       rewrite DD, S1, O1, ST1. rewrite S4, ST1. rewrite S2, R1. split; [reflexivity|]. split; [exact (qeq_trans _ _ _ S3 Q1)|].
-      split; [reflexivity|]. split; [exact DR1|]. intros _. auto.
+      split; [reflexivity|]. split; [exact DR1|]. split; [intros _; auto|]. intros AS HH. apply SL; assumption.
   - (* the first piece ends the session *)
     destruct DA as (A & C & D & E). rewrite E in TI. rewrite <- T1 in TI. destruct (DQ TI) as (Q1 & R1 & O1 & ST1 & _).
     assert (H1 : halted s1 = true) by (rewrite S4, ST1, CO; reflexivity).
     rewrite H1, andb_false_r. rewrite S1, O1, ST1, C, D. split; [reflexivity|]. rewrite A. split; [exact (qeq_trans _ _ _ S3 Q1)|].
-    rewrite CO. split; [rewrite H1; reflexivity|]. split; [|discriminate].
+    rewrite CO. split; [rewrite H1; reflexivity|]. split; [|split; [discriminate|intros _ HH; rewrite H1 in HH; discriminate]].
     rewrite S2, R1. pose proof (drain_rest (S (length (buf s ++ piece))) q0 (buf s ++ piece) OKbp ltac:(lia)) as DR.
     cbv zeta in DR. apply DR.
 Qed.
@@ -652,12 +819,14 @@ Theorem C16_refines_thm : forall segs s q0,
   d_tight d = false ->
   let r := run_from FIXED s (map Seg segs) in
   rx_of (snd r) = rx_of (d_out d) ++ rx_of_stop (d_stop d) /\ qeq (mq (fst r)) (d_q d) /\
-  (d_stop d = Wait -> ready (fst r) /\ buf (fst r) = d_rest d) /\ (d_stop d <> Wait -> halted (fst r) = true).
+  (d_stop d = Wait -> ready (fst r) /\ buf (fst r) = d_rest d) /\ (d_stop d <> Wait -> halted (fst r) = true) /\
+  (all_sent (mq s) -> halted (fst r) = false -> ledger (mq s) (mq (fst r)) (snd r)).
 Proof.
   induction segs as [|c segs IH]; intros s q0 R OKs Q; unfold parse_stream.
   - cbn [concat map run_from fst snd rx_of]. rewrite app_nil_r. destruct R as [R1 R2 R3 R4].
     rewrite drain_S, R3. replace (RECVBUF <=? len (buf s)) with false by (symmetry; apply Z.leb_gt; lia).
-    cbn. intros _. repeat split; auto; congruence.
+    cbn. intros _. split; [reflexivity|]. split; [exact Q|]. split; [intros _; split; [constructor; assumption|reflexivity]|].
+    split; [congruence|]. intros AS _. apply ledger_nil; exact AS.
   - cbv zeta. intros TI. cbn [concat] in TI. cbn [map run_from concat]. unfold step. destruct R as [R1 R2 R3 R4]. rewrite R4.
     cbn [fx_recv FIXED]. inversion OKs as [|? ? OKc OKr]; subst.
     assert (OKcat : bytes_ok (concat segs)).
@@ -671,7 +840,7 @@ Proof.
     destruct (continues (d_stop d1)) eqn:CO.
     + destruct DA as (A & B & C & D & E). rewrite E in TI. apply orb_false_l' in TI. destruct TI as [TI1 TI2].
       specialize (FR TI1). destruct (feed (S (S (length c))) FIXED s c) as [s1 o1].
-      destruct FR as (F1 & F2 & F3 & F4 & F5). destruct (F5 eq_refl) as [F6 F7].
+      destruct FR as (F1 & F2 & F3 & F4 & F5 & FL). destruct (F5 eq_refl) as [F6 F7].
       pose proof (drain_rest (S (length (buf s ++ c))) q0 (buf s ++ c) ltac:(apply bytes_ok_app; auto) ltac:(lia)) as DR.
       cbv zeta in DR. fold d1 in DR. destruct DR as (_ & _ & _ & DR4 & _).
       apply continues_wait in CO. destruct (DR4 CO) as [_ DR6].
@@ -679,13 +848,15 @@ Proof.
       { constructor; [exact F4 | exact F7 | rewrite F6; exact DR6 | exact F3]. }
       specialize (IH s1 (d_q d1) R' OKr F2). unfold parse_stream in IH. cbv zeta in IH. rewrite F6 in IH.
       specialize (IH TI2). destruct (run_from FIXED s1 (map Seg segs)) as [s2 o2]. cbn [fst snd] in *.
-      destruct IH as (I1 & I2 & I3 & I4).
-      rewrite rx_of_app, F1, I1, C, CO, D, A, B. cbn [rx_of_stop]. rewrite app_nil_r, app_assoc. auto.
+      destruct IH as (I1 & I2 & I3 & I4 & IL).
+      rewrite rx_of_app, F1, I1, C, CO, D, A, B. cbn [rx_of_stop]. rewrite app_nil_r, app_assoc.
+      split; [reflexivity|]. split; [exact I2|]. split; [exact I3|]. split; [exact I4|].
+      intros AS HH. destruct R' as [_ _ _ RH]. pose proof (FL AS RH) as L1. apply (ledger_trans _ _ _ _ _ L1). apply IL; [apply L1|exact HH].
     + destruct DA as (A & C & D & E). rewrite E in TI. specialize (FR TI).
-      destruct (feed (S (S (length c))) FIXED s c) as [s1 o1]. destruct FR as (F1 & F2 & F3 & F4 & F5).
+      destruct (feed (S (S (length c))) FIXED s c) as [s1 o1]. destruct FR as (F1 & F2 & F3 & F4 & F5 & FL).
       cbn [negb] in F3. rewrite (run_halted _ s1 F3). cbn [fst snd]. rewrite app_nil_r.
-      rewrite F1, C, D, A. split; [reflexivity|]. split; [exact F2|]. split; [|auto].
-      intros W. rewrite W in CO. discriminate.
+      rewrite F1, C, D, A. split; [reflexivity|]. split; [exact F2|]. split; [intros W; rewrite W in CO; discriminate|].
+      split; [auto|]. intros _ HH. rewrite F3 in HH. discriminate.
 Qed.
 
 (* two segmentations of the same bytes *)
@@ -699,7 +870,7 @@ Proof.
   intros s segs1 segs2 R O1 O2 E TI. cbv zeta.
   pose proof (C16_refines_thm segs1 s (mq s) R O1 (qeq_refl _)) as A. cbv zeta in A. specialize (A TI).
   pose proof (C16_refines_thm segs2 s (mq s) R O2 (qeq_refl _)) as B. cbv zeta in B. rewrite <- E in B. specialize (B TI).
-  destruct A as (A1 & A2 & A3 & A4), B as (B1 & B2 & B3 & B4).
+  destruct A as (A1 & A2 & A3 & A4 & _), B as (B1 & B2 & B3 & B4 & _).
   split; [congruence|]. split; [exact (qeq_trans _ _ _ A2 (qeq_sym _ _ B2))|].
   destruct (d_stop (parse_stream (mq s) (buf s ++ concat segs1))) eqn:ST.
   - destruct (A3 eq_refl) as [[_ _ _ H1] E1], (B3 eq_refl) as [[_ _ _ H2] E2]. split; [congruence|]. intros _. congruence.
@@ -1052,7 +1223,7 @@ Proof.
   pose proof (C16_refines_thm segs s (mq s) R OK (qeq_refl _)) as RF. cbv zeta in RF. rewrite B, CC in RF. cbn [app] in RF.
   pose proof (C16_exact_delivery_stream_thm (mq s) dup qos retain pid topic payload [] W ltac:(constructor) AC) as ED.
   cbv zeta in ED. rewrite app_nil_r, parse_empty in ED. cbn [d_q d_rest d_out d_stop d_tight rx_of] in ED.
-  destruct ED as (E1 & E2 & E3 & E4 & E5). specialize (RF E5). destruct RF as (F1 & F2 & F3 & F4).
+  destruct ED as (E1 & E2 & E3 & E4 & E5). specialize (RF E5). destruct RF as (F1 & F2 & F3 & F4 & _).
   rewrite E1, E4 in F1. rewrite E2 in F2. destruct (F3 E4) as [F5 F6]. rewrite E3 in F6. auto.
 Qed.
 
@@ -1205,7 +1376,7 @@ Proof.
   intros s segs ct fl body rest R B OK Hc Hf OKb FIT M CC. cbv zeta.
   pose proof (C16_refines_thm segs s (mq s) R OK (qeq_refl _)) as RF. cbv zeta in RF. rewrite B, CC in RF. cbn [app] in RF.
   pose proof (C16_malformed_errors_stream_thm (mq s) ct fl body rest Hc Hf OKb FIT M) as ME. cbv zeta in ME.
-  destruct ME as (E1 & [e E2] & E3 & E4). specialize (RF E4). destruct RF as (F1 & F2 & F3 & F4).
+  destruct ME as (E1 & [e E2] & E3 & E4). specialize (RF E4). destruct RF as (F1 & F2 & F3 & F4 & _).
   rewrite E1, E2 in F1. cbn [rx_of rx_of_stop app] in F1. split; [eauto|]. apply F4. rewrite E2. discriminate.
 Qed.
 
@@ -1242,11 +1413,6 @@ Proof. vm_compute. repeat split; reflexivity. Qed.
 
 (* ------------------------------------------------------------------------------------------ *)
 (* acknowledgements go out at the end of the same mqtt_sync *)
-Lemma send_all_sent q : forallb (fun e => negb (unsent e)) (fst (send q)) = true.
-Proof.
-  unfold send; cbn [fst]. apply forallb_forall. intros e H. apply in_map_iff in H. destruct H as (x & <- & _).
-  destruct (unsent x) eqn:U; [|rewrite U; reflexivity]. unfold unsent, set_sent in *. cbn. rewrite andb_false_r. reflexivity.
-Qed.
 Theorem C16_acks_sent_thm : forall s, halted (fst (sync FIXED s)) = false ->
   let d := drain (S (length (buf s))) FIXED (mq s) (buf s) in
   snd (sync FIXED s) = d_out d ++ map sent_out (filter unsent (d_q d)) /\
@@ -1257,4 +1423,44 @@ Proof.
     destruct (send _) as [q' so] eqn:SE. unfold send in SE. inversion SE; subst. cbn [fst snd mq]. auto.
   - cbn [fst halted]. discriminate.
   - cbn [fst halted]. discriminate.
+Qed.
+
+(* ------------------------------------------------------------------------------------------ *)
+(* exact delivery, wire side: the acknowledgement with the packet id of the PUBLISH is what goes out *)
+Lemma app_eq_len {A} (l1 l3 l2 l4 : list A) : length l1 = length l3 -> l1 ++ l2 = l3 ++ l4 -> l1 = l3 /\ l2 = l4.
+Proof.
+  revert l3. induction l1 as [|x l1 IH]; intros [|y l3] L E; try discriminate; [auto|]. cbn [app] in E. apply cons_inj in E.
+  destruct E as [-> E]. destruct (IH l3 ltac:(cbn in L; lia) E) as [-> ->]. auto.
+Qed.
+
+Theorem C16_exact_delivery_acked_thm : forall s segs dup qos retain pid topic payload,
+  ready s -> buf s = [] -> Forall bytes_ok segs -> all_sent (mq s) ->
+  wf_publish dup qos retain pid topic payload -> accepts (mq s) qos pid ->
+  concat segs = enc_publish dup qos retain pid topic payload ->
+  sents (snd (run_from FIXED s (map Seg segs))) = map sent_out (ack_entry qos pid).
+Proof.
+  intros s segs dup qos retain pid topic payload R B OK AS W AC CC.
+  pose proof (C16_refines_thm segs s (mq s) R OK (qeq_refl _)) as RF. cbv zeta in RF. rewrite B, CC in RF. cbn [app] in RF.
+  pose proof (C16_exact_delivery_stream_thm (mq s) dup qos retain pid topic payload [] W ltac:(constructor) AC) as ED.
+  cbv zeta in ED. rewrite app_nil_r, parse_empty in ED. cbn [d_q d_rest d_out d_stop d_tight rx_of] in ED.
+  destruct ED as (E1 & E2 & E3 & E4 & E5). specialize (RF E5). destruct RF as (_ & F2 & F3 & _ & FL).
+  rewrite E2 in F2. destruct (F3 E4) as [[_ _ _ RH] _]. destruct (FL AS RH) as (AR & a & nw & EQ & CA & SL).
+  rewrite <- SL. rewrite EQ in F2, AR. unfold qeq in F2. rewrite !map_app in F2.
+  assert (LA : length (map strip a) = length (map strip (mq s))).
+  { rewrite !map_length. apply (f_equal (@length _)) in CA. rewrite !map_length in CA. exact CA. }
+  destruct (app_eq_len _ _ _ _ LA F2) as [_ N].
+  unfold all_sent in AR. rewrite forallb_app in AR. apply andb_true_iff in AR. destruct AR as [_ AN].
+  unfold ack_entry in *. destruct (qos =? 1).
+  - destruct nw as [|e [|? ?]]; try discriminate. cbn [map] in N. apply cons_inj in N. destruct N as [N _].
+    unfold strip, new_entry in N; cbn in N. inversion N as [[N1 N2 N3 N4]].
+    cbn [forallb] in AN. rewrite andb_true_r in AN. unfold unsent in AN. rewrite N4 in AN. cbn [negb andb] in AN.
+    apply negb_true_iff, negb_false_iff in AN. unfold slog. cbn [filter]. rewrite AN. cbn [map]. unfold sent_out, new_entry. cbn [ect epid].
+    rewrite N1, N2. reflexivity.
+  - destruct (qos =? 2).
+    + destruct nw as [|e [|? ?]]; try discriminate. cbn [map] in N. apply cons_inj in N. destruct N as [N _].
+      unfold strip, new_entry in N; cbn in N. inversion N as [[N1 N2 N3 N4]].
+      cbn [forallb] in AN. rewrite andb_true_r in AN. unfold unsent in AN. rewrite N4 in AN. cbn [negb andb] in AN.
+      apply negb_true_iff, negb_false_iff in AN. unfold slog. cbn [filter]. rewrite AN. cbn [map]. unfold sent_out, new_entry. cbn [ect epid].
+      rewrite N1, N2. reflexivity.
+    + destruct nw; [reflexivity|discriminate].
 Qed.
